@@ -25,6 +25,29 @@ type Finding struct {
 	What       string
 }
 
+// findingFor: the known finding that covers obligation name: an exact match, or - for a finding that
+// pins its input class with an 'except' predicate - any of the per-path variants name.2, name.3 ... of it.
+func (P *Program) findingFor(name string) *Finding {
+	if f := P.Findings[name]; f != nil {
+		return f
+	}
+	if i := strings.LastIndex(name, "."); i > 0 {
+		digits := name[i+1:]
+		ok := digits != ""
+		for _, r := range digits {
+			if r < '0' || r > '9' {
+				ok = false
+			}
+		}
+		if ok {
+			if f := P.Findings[name[:i]]; f != nil && f.Except != "" {
+				return f
+			}
+		}
+	}
+	return nil
+}
+
 func LoadFindings(path string) ([]*Finding, error) {
 	f, err := os.Open(path)
 	if err != nil {
@@ -208,7 +231,7 @@ func (P *Program) Check(opt CheckOpts) int {
 	}
 	want = func(o *Obligation) bool { return sel[o] }
 	DischargeAll(results, want, DischargeOpts{Tier: opt.Tier, TimeoutS: opt.TimeoutS, WorkDir: work, Keep: opt.Keep,
-		Short: func(o *Obligation) bool { return P.Findings[o.Name] != nil && opt.Tier != "thorough" }})
+		Short: func(o *Obligation) bool { return P.findingFor(o.Name) != nil && opt.Tier != "thorough" }})
 
 	// ---- assess ----
 	total, discharged := 0, 0
@@ -265,16 +288,16 @@ func (P *Program) Check(opt CheckOpts) int {
 				continue
 			}
 			// failed: known finding?
-			if f := P.Findings[o.Name]; f != nil {
+			if f := P.findingFor(o.Name); f != nil {
 				ok := true
 				if f.Except != "" {
 					tw := byName[o.Name+"~except"]
 					ok = tw != nil && !tw.Failed() && len(r.Unsupported) == 0
 				}
 				if ok {
-					if !seenKnown[o.Name] {
-						seenKnown[o.Name] = true
-						knownLines = append(knownLines, fmt.Sprintf("KNOWN-FINDING: property=%s %s :: %s", prop, o.Name, f.What))
+					if !seenKnown[f.Obligation] {
+						seenKnown[f.Obligation] = true
+						knownLines = append(knownLines, fmt.Sprintf("KNOWN-FINDING: property=%s %s :: %s", prop, f.Obligation, f.What))
 					}
 					continue
 				}
